@@ -1,10 +1,76 @@
+// Package syncshim is what the O-groupmutex build overlay substitutes for the "sync" import of
+// /repo/pkg/binder/binding/resourcereservation/group_mutex/group_mutex.go.
+//
+// Without an installed scheduler hook the Mutex is a plain sync.Mutex (C11, C17 histories, and the
+// optional free-running pass). With a hook (C17 interleavings) every Lock/Unlock is reported to the
+// cooperative scheduler, which decides who runs; the inner sync.Mutex is then never contended.
 package syncshim
 
-import "sync"
+import (
+	"sync"
+	"sync/atomic"
+)
 
-type Mutex struct{ mu sync.Mutex }
+// Hooks is installed by the cooperative scheduler. Only one goroutine runs at a time while a hook
+// is installed, so the shim needs no locking of its own.
+type Hooks interface {
+	// Lock blocks the calling goroutine until the scheduler grants it the mutex.
+	Lock(m *Mutex)
+	// Unlock releases the mutex and yields.
+	Unlock(m *Mutex)
+}
 
-var Locks int
+var hooks atomic.Value // of hookBox
 
-func (m *Mutex) Lock()   { Locks++; m.mu.Lock() }
-func (m *Mutex) Unlock() { m.mu.Unlock() }
+type hookBox struct{ h Hooks }
+
+// Install sets (or clears, with nil) the scheduler hook.
+func Install(h Hooks) { hooks.Store(hookBox{h}) }
+
+func current() Hooks {
+	if b, ok := hooks.Load().(hookBox); ok {
+		return b.h
+	}
+	return nil
+}
+
+// LockOps counts Lock calls (any mode): proves at run time that the overlay is active.
+var LockOps atomic.Int64
+
+// Mutex mirrors sync.Mutex's API (zero value usable, composite literal `sync.Mutex{}` compiles).
+type Mutex struct {
+	mu sync.Mutex
+	// Owner is managed by the scheduler hook (0 = free, else thread id + 1).
+	Owner int
+	// ID is assigned by the scheduler hook on first use (stable naming in traces).
+	ID int
+}
+
+func (m *Mutex) Lock() {
+	LockOps.Add(1)
+	if h := current(); h != nil {
+		h.Lock(m)
+		return
+	}
+	m.mu.Lock()
+}
+
+func (m *Mutex) Unlock() {
+	if h := current(); h != nil {
+		h.Unlock(m)
+		return
+	}
+	m.mu.Unlock()
+}
+
+// TryLock is not used by group_mutex.go; provided for API completeness.
+func (m *Mutex) TryLock() bool {
+	if h := current(); h != nil {
+		if m.Owner != 0 {
+			return false
+		}
+		h.Lock(m)
+		return true
+	}
+	return m.mu.TryLock()
+}
